@@ -263,7 +263,7 @@ static void silk_case(char *line)
    char *s1 = next_section(line), *s2 = next_section(s1);
    static unsigned char buf[1400], pkt[1400]; static opus_int16 pa[5760 * 2], pb[5760 * 2], pc[5760 * 2];
    static int rh[MAXOPS], rl[MAXOPS];
-   int id, fs, ms, nch, i, ok = 1, nb_subfr, plen, nbytes, nsamp, nr, fr, pr, lb, feq, enc_err, peq;
+   int id, fs, ms, nch, i, ok = 1, nb_subfr, plen, nbytes, nsamp, nr, fr, pr, lb, feq, enc_err, peq, fz = 1;
    ec_enc enc; opus_uint32 seed, rngN = 0, rngF = 0;
    g_nhead = read_ints(line + 1, g_head, 16);
    g_nops = read_ints(s1, g_ops, MAXOPS * 4) / 4; g_nvals = read_ints(s2, g_vals, MAXOPS);
@@ -304,13 +304,15 @@ static void silk_case(char *line)
       opus_decoder_ctl(g_dA, OPUS_GET_FINAL_RANGE(&rngN));
       feq = fr == pr && fr > 0 && memcmp(pb, pc, sizeof(opus_int16) * fr * g_chdec) == 0;
       peq = nr == fr && nr > 0 && memcmp(pa, pb, sizeof(opus_int16) * nr * g_chdec) == 0;
+      /* fz: the FEC output is degenerate - every sample is zero or on a rail (the synthetic frames often saturate) */
+      for (i = 0; fr > 0 && i < fr * g_chdec; i++) if (pb[i] != 0 && pb[i] != 32767 && pb[i] != -32768) fz = 0;
       free(d);
    }
    js_open("silk"); js_int("id", id); js_int("fs", fs); js_int("ms", ms); js_int("nch", nch); js_int("dfs", g_fsdec); js_int("dch", g_chdec);
    js_arr_i("vals", g_vals, g_nvals); js_arr_i("ops", g_ops, 4 * g_nops); js_arr_i("rh", rh, g_nops); js_arr_i("rl", rl, g_nops);
    js_int("n", plen); js_int("toc", pkt[0]); js_int("b0", pkt[1]); js_int("lb", lb);
    js_int("nr", nr); js_halves("nh", "nl", rngN);
-   js_int("fr", fr); js_halves("fh", "fl", rngF); js_int("pr", pr); js_int("feq", feq); js_int("peq", peq);
+   js_int("fr", fr); js_halves("fh", "fl", rngF); js_int("pr", pr); js_int("feq", feq); js_int("fz", fz); js_int("peq", peq);
    js_close();
 }
 
